@@ -128,6 +128,8 @@ def confirm(ws, res, meta, scratch):
     if g:
         info["automaton"] = {k: g[k] for k in ("name", "variant", "kind", "nfb", "vtype", "patterns", "npatterns")}
         info["plan_entry"] = _entry_text(ws, g["name"])
+    if g and reproduced:
+        info["witness"] = public_witness(ws, info["plan_entry"], scratch)
     if not reproduced:
         return False, "native dev/release runs: %s" % [(r["profile"], r["outcome"], r.get("detail", "")[:80]) for r in runs]
     return True, info
@@ -156,3 +158,23 @@ def replay_file(path):
         return 2
     finally:
         shutil.rmtree(scratch, ignore_errors=True)
+
+
+def public_witness(ws, entry_text, scratch, maxlen=5, timeout=180):
+    """Native search for a haystack on which a PUBLIC search method disagrees with the brute-force
+    oracle (turns a table-level counterexample into something a user can run; decides nothing)."""
+    path = os.path.join(scratch, "witness-plan.txt")
+    open(path, "w").write(entry_text)
+    try:
+        p = subprocess.run([ws.vtool, "witness", path, str(maxlen)], stdout=subprocess.PIPE,
+                           stderr=subprocess.DEVNULL, text=True, timeout=timeout)
+    except subprocess.TimeoutExpired:
+        return dict(search="timed out")
+    for line in p.stdout.splitlines():
+        try:
+            return json.loads(line)
+        except ValueError:
+            continue
+    if p.returncode < 0:
+        return dict(search="aborted with signal %d (e.g. an unsafe precondition check)" % -p.returncode)
+    return None
